@@ -8,3 +8,4 @@ pub mod bus;
 pub mod intc;
 pub mod ime;
 pub mod header;
+pub mod render;
